@@ -512,15 +512,38 @@ func main() {
 			"output-directory-overlaps-interior-directory sets, malformed sets (kind clash / unequal duplicate payloads); plus buildEnv on random maps; " +
 			"plus END TO END: real BuildTargets (0-4 source files/dirs/symlinks on disk, 1-5 dependencies with stored output Directories, some also sources) in a real BuildGraph " +
 			"through the real Client.uploadInputs and buildAction on a connection-less client, 6 orders each (source declaration order, dependency declaration order, " +
-			"entry order inside each dependency's output Directory); plus the real buildCommand on targets with outputs / named outputs / output dirs / platform labels / env declared in varying orders. " +
+			"entry order inside each dependency's output Directory); plus CONCURRENCY: groups of 2-8 such targets (each with an extra root-package dependency of 25-210 files, so that the root message is large) in one graph on ONE client, " +
+			"each prepared alone twice and then all at once from one goroutine per target (120 rounds), in some groups next to 2-3 goroutines calling digestMessage directly, every concurrent action digest compared with the sequential one; " +
+			"plus READ FAULTS: one source file of a target is a unix socket (open fails) or absent during the first real uploadInputs, then becomes a regular file, and the action is prepared twice more on the same BuildState and once with a fresh PathHasher; plus the real buildCommand on targets with outputs / named outputs / output dirs / platform labels / env declared in varying orders. " +
 			"distinct = distinct ordered declaration lists; non-trivial = >=3 declarations with a nested directory or a duplicate")
 
 		var replay struct {
-			Ops []op `json:"ops"`
+			Ops       []op       `json:"ops"`
+			Stream    string     `json:"stream"`
+			Scenarios []scenario `json:"scenarios"`
+			Bulk      []int      `json:"bulk"`
+			Rounds    int        `json:"rounds"`
+			Hammer    int        `json:"hammer"`
+			Scenario  scenario   `json:"scenario"`
+			Victim    string     `json:"victim"`
+			Kind      string     `json:"kind"`
 		}
-		if c.ReadReplay(&replay) && len(replay.Ops) > 0 {
-			checkSet(c, c.Rng.Fork(), replay.Ops, "replay", 6, 200)
-			return
+		if c.ReadReplay(&replay) {
+			switch {
+			case len(replay.Ops) > 0:
+				checkSet(c, c.Rng.Fork(), replay.Ops, "replay", 6, 200)
+				return
+			case replay.Stream == "concurrent" && len(replay.Scenarios) > 0 && len(replay.Bulk) == len(replay.Scenarios):
+				// an interleaving cannot be replayed step by step: the same targets, the same number of goroutines, more rounds
+				g := concGroup{Stream: "concurrent", Scenarios: replay.Scenarios, Bulk: replay.Bulk, Rounds: 4 * max(replay.Rounds, 100), Hammer: replay.Hammer}
+				inScratch(func() { checkConc(c, c.Rng.Fork(), g, true) })
+				return
+			case replay.Stream == "read-fault" && replay.Victim != "":
+				inScratch(func() {
+					checkFault(c, faultCase{Stream: "read-fault", Scenario: replay.Scenario, Victim: replay.Victim, Kind: replay.Kind})
+				})
+				return
+			}
 		}
 
 		// --- 0. fixed corpus: the smallest instances of every stream
@@ -562,6 +585,9 @@ func main() {
 		e2eStream(c, c.Scale(40, 600), c.Scale(6, 60))
 		// --- 5. the Command: real buildCommand over declaration orders of outputs / output dirs / labels / env
 		cmdStream(c, c.Scale(60, 1200))
+		// --- 5b. follow-up round 2: N goroutines on one client; a read fault, repaired, same process
+		concStream(c, c.Scale(6, 40))
+		faultStream(c, c.Scale(24, 400))
 		// --- 6. buildEnv (last: every call makes a BuildState whose watchdog dumps goroutines after 5 idle seconds)
 		envStream(c, c.Scale(60, 1500))
 	})
